@@ -10,6 +10,8 @@ DEFER = dict(throws=0.0, subs=0.15, enq=0.08, drain=0.08, restart=0.0, startsubs
 THROW = dict(throws=0.5, subs=0.15, enq=0.05, drain=0.05, restart=0.0, startsubs=0.0, maxcalls=7)
 MIXED = dict(throws=0.15, subs=0.25, enq=0.1, drain=0.1, restart=0.05, startsubs=0.0, maxcalls=7)
 
+ENQDRAIN = dict(throws=0.0, subs=0.1, enq=0.45, drain=0.3, restart=0.0, startsubs=0.0, maxcalls=10)   # enqueue_event + single-step drains
+
 MC_PLAIN = dict(maxcalls=4, budget=0, apis=("start", "pe"), dirops=(), direvs=())
 MC_PLAIN5 = dict(maxcalls=5, budget=0, apis=("start", "pe"), dirops=(), direvs=())
 MC_RESTART = dict(maxcalls=5, budget=0, apis=("start", "pe", "stop"), dirops=(), direvs=())
@@ -27,7 +29,7 @@ PLAN = {
              title="transition execution order"),
  "C03": dict(machines=["hier3", "histN", "histS", "pseudo", "compl", "ortho"], profile=RESTART, mc=MC_RESTART, invariants=["P_C03"],
              title="active configuration integrity"),
- "C04": dict(configs=ALL + ["back_circ"], machines=["hier2", "compl", "defer", "flat", "deferq"], profile=QUEUE, mc=MC_QUEUE, invariants=["P_C04"],
+ "C04": dict(configs=ALL + ["back_circ"], machines=["hier2", "compl", "defer", "flat", "deferq"], profile=[QUEUE, ENQDRAIN], mc=MC_QUEUE, invariants=["P_C04"],
              title="run to completion / FIFO / exactly once"),
  "C05": dict(machines=["defer", "defer2", "deferq", "defer3"], profile=DEFER, mc=dict(MC_QUEUE, maxcalls=4, budget=0, dirops=(), direvs=()), invariants=["P_C05"],
              title="deferred events"),
